@@ -5,7 +5,7 @@ proof: coq/Props/Properties_C15.v (squareroot exact by loop invariant, nextretry
 tie:   real squareroot()/nextretry()/prioq_*()/pqfinish()+pqstart() (function harness that
        #includes qmail-send.c) against the extracted model; constants tie (chanskip, the
        flagdying and due-test expressions) regenerated from the sources each run."""
-import itertools, json, os, subprocess, sys
+import itertools, json, os, signal, subprocess, sys, time
 import vlib
 
 PID = "C15"
@@ -111,6 +111,80 @@ def pq_abs(res):
     mins, _, arr = res.partition(" | ")
     return ([m.split(":")[0] for m in mins.split()], sorted(arr.split(",")) if arr else [])
 
+def daemon_histories(ck, rb, drv, fails, mism):
+    """the real qmail-send under a virtual clock (the interposer's time() reads a file): after a deferral the next
+    attempt must not start one second before the model's retry time and must start at it; the schedule survives
+    SIGTERM + restart; past the queue lifetime a deferral becomes a failure"""
+    import queue_common as qc
+    tf = os.path.join(vlib.scratch(), "clock")
+    def setclock(t): open(tf + ".tmp", "w").write(str(int(t))); os.replace(tf + ".tmp", tf)
+    def poke(W):
+        fd = os.open(os.path.join(W.home, "queue", "lock", "trigger"), os.O_WRONLY | os.O_NONBLOCK); os.write(fd, b"\0"); os.close(fd)
+    for lifetime in (None, 1000, 0, "at-retry", "one-below-retry"):
+        V0 = int(time.time()); setclock(V0)
+        W = qc.World(rb, "c15", extra_env={"SYSSHIM_TIMEFILE": tf})
+        lt = os.path.join(W.home, "control", "queuelifetime")
+        edge = lifetime if isinstance(lifetime, str) else None
+        if lifetime is None or edge:
+            if os.path.exists(lt): os.remove(lt)
+        else: open(lt, "w").write("%d\n" % lifetime)
+        R = qc.Runner(W, {}, default=b"Z"); R.start(); R.service(0.3)
+        R.inject(b"s@x.example", [b"r@remote.example"]); 
+        for _ in range(6):
+            R.service(0.1)
+            if R.cmds: break
+        hist = ["virtual clock V0=%d lifetime=%s" % (V0, lifetime)]
+        obj = lambda **kw: dict(fn="qmail-send under a virtual clock", queuelifetime=lifetime, history=list(hist[-30:]), **kw)
+        if not R.cmds:
+            mism.append(dict(fn="daemon history", note="no first attempt", history=hist)); R.kill(); continue
+        n = R.cmds[0]["n"]
+        birth = int(os.stat(qc.qpath(W.home, "info", n)).st_mtime)
+        t_attempt = V0
+        if edge:
+            # lifetime exactly at / one second below the age the message will have at its next attempt
+            due0 = int(vlib.run_lines(drv, ["retry %d %d 1" % (birth, t_attempt)])[0][0])
+            lifetime = due0 - birth - (1 if edge == "one-below-retry" else 0)
+            R.term(); open(lt, "w").write("%d\n" % lifetime); R.start(); R.service(0.3); hist.append("SIGTERM, queuelifetime := %d, restart" % lifetime)
+        L = 604800 if lifetime is None else lifetime
+        ok = True
+        for rnd in range(3 if ck.thorough else 2):
+            due = int(vlib.run_lines(drv, ["retry %d %d 1" % (birth, t_attempt)])[0][0])
+            dying_expected = t_attempt > birth + L
+            ck.evaluated(); ck.nontrivial(("dh", lifetime, rnd)); ck.count("daemon_retry_times")
+            last = [c for c in R.cmds if c["rcpt"] == b"r@remote.example"]
+            if last and last[-1]["verdict"] == b"Z" and not dying_expected and rnd > 0:
+                R.service(0.2)
+                if b"r@remote.example" not in R.still_todo():
+                    hist.append("attempt at %d was NOT past birth+lifetime=%d, yet the deferral finished the recipient" % (t_attempt, birth + L))
+                    fails.append(("sched:expired-too-early", obj(birth=birth, attempt_time=t_attempt))); break
+            if last and last[-1]["verdict"] == b"Z" and dying_expected:
+                # the deferral of a dying message must have become a failure: a bounce record or bounce message exists
+                R.service(0.3); R.scan_bounces()
+                gone = b"r@remote.example" not in R.still_todo()
+                hist.append("attempt at %d was past birth+lifetime=%d: deferral must count as failure -> still to do: %s" % (t_attempt, birth + L, not gone))
+                if not gone:
+                    fails.append(("sched:dying-message-retried", obj(birth=birth, attempt_time=t_attempt))); ok = False
+                break
+            ncmd = len(R.cmds)
+            if rnd == 1:
+                # the schedule must survive a clean stop
+                R.term(); R.start(); R.service(0.3); hist.append("SIGTERM + restart")
+            setclock(due - 1); poke(W); R.service(0.3)
+            early = len(R.cmds) > ncmd
+            hist.append("clock %d (one second before the model's retry time %d): attempt started: %s" % (due - 1, due, early))
+            if early:
+                fails.append(("sched:retried-before-backoff", obj(birth=birth, previous_attempt=t_attempt, model_retry=due))); ok = False; break
+            setclock(due); poke(W)
+            for _ in range(8):
+                R.service(0.1)
+                if len(R.cmds) > ncmd: break
+            started = len(R.cmds) > ncmd
+            hist.append("clock %d (the retry time): attempt started: %s" % (due, started))
+            if not started:
+                fails.append(("sched:not-retried-when-due", obj(birth=birth, previous_attempt=t_attempt, model_retry=due))); ok = False; break
+            t_attempt = due
+        R.kill()
+
 def main():
     ck = vlib.Check(PID, "proof")
     rb = vlib.RepoBuild()
@@ -206,8 +280,9 @@ def main():
         if got != sorted(rb_.split(",")):
             mism.append(dict(fn="pqfinish+pqstart", schedule=want, observed=ra, expected=rb_))
 
+    daemon_histories(ck, rb, drv, fails, mism)
     ck.cov["disagreements_checked"] = len(mism)
-    ck.cov["rule"] = ("squareroot: all x<=70000, k^2-1,k^2,k^2+1, powers of two +-1, seeded random (thorough: every x < 2^32 on the real function); "
+    ck.cov["rule"] = ("daemon histories under a virtual clock: the real qmail-send is poked just before and at each retry time computed by the model, across SIGTERM + restart, queuelifetime 0 / 1000 / default; squareroot: all x<=70000, k^2-1,k^2,k^2+1, powers of two +-1, seeded random (thorough: every x < 2^32 on the real function); "
                       "nextretry: (birth, recent, channel) grid incl. clock stepped back; prioq: every insert/delete sequence to the stated length over "
                       "3 keys, all permutations of 6, random long; restart: random two-channel schedules through the real pqfinish()+pqstart(). "
                       "non-trivial = distinct (function, case) classes as counted")
